@@ -177,22 +177,25 @@ package gmtls
 //@      (not (isnil (sessOf hs)))
 //@      (= (ghost ctc.last) 1)
 //@      (= (field (field hs c) vers) (field (sessOf hs) vers))
-//@      (exists ((j B64)) (and (bvult j (len (field (field hs clientHello) cipherSuites)))
-//@                             (= (at (field (field hs clientHello) cipherSuites) j) (field (sessOf hs) cipherSuite))))
 //@      (=> (or (= (field (cfgOf hs) ClientAuth) 2) (= (field (cfgOf hs) ClientAuth) 4)) (bvsgt (len (field (sessOf hs) certificates)) 0))
 //@      (=> (= (field (cfgOf hs) ClientAuth) 0) (= (len (field (sessOf hs) certificates)) 0))))
-//@ (func "(*serverHandshakeStateGM).checkForResumption" autoloops noframe
+//@ (defmacro offeredSuites (hs) (field (field hs clientHello) cipherSuites))
+//@ (defmacro suiteOffered (hs) (exists ((a B64)) (and (bvult (bvsub a (off (offeredSuites hs))) (len (offeredSuites hs)))
+//@                             (= (select (row (offeredSuites hs)) a) (field (sessOf hs) cipherSuite)))))
+//@ (func "(*serverHandshakeStateGM).checkForResumption" autoloops noframe split-returns
 //@   (requires args (and (not (isnil (field hs c))) (not (isnil (cfgOf hs))) (not (isnil (field hs clientHello)))))
 //@   (requires sep (distinct (obj hs) (obj (field hs c)) (obj (cfgOf hs)) (obj (field hs clientHello))))
 //@   (requires tables (suitesOK))
 //@   (ghost-havoc ctc.last ctc.eqs)
-//@   (ensures policy (=> result (resumeOK hs))))
-//@ (func "(*serverHandshakeState).checkForResumption" autoloops noframe
+//@   (ensures policy (=> result (resumeOK hs)))
+//@   (ensures offered (=> result (suiteOffered hs))))
+//@ (func "(*serverHandshakeState).checkForResumption" autoloops noframe split-returns
 //@   (requires args (and (not (isnil (field hs c))) (not (isnil (cfgOf hs))) (not (isnil (field hs clientHello)))))
 //@   (requires sep (distinct (obj hs) (obj (field hs c)) (obj (cfgOf hs)) (obj (field hs clientHello))))
 //@   (requires tables (suitesOK))
 //@   (ghost-havoc ctc.last ctc.eqs)
-//@   (ensures policy (=> result (resumeOK hs))))
+//@   (ensures policy (=> result (resumeOK hs)))
+//@   (ensures offered (=> result (suiteOffered hs))))
 // helpers of the resumption check: they read the configuration and write only what is named
 //@ (func "(*Config).cipherSuites" trusted
 //@   (requires nn (not (isnil c)))
